@@ -160,6 +160,7 @@ type WorkerResult struct {
 	Samples     []json.RawMessage `json:"samples"`
 	WallS       float64           `json:"wall_s"`
 	Profiles    map[string]int    `json:"profiles"`
+	NextIndex   int               `json:"next_index"`
 	FirstSeed   uint64            `json:"first_seed"`
 	LastSeed    uint64            `json:"last_seed"`
 }
@@ -265,7 +266,7 @@ func workerMain(t *testing.T, def *PropDef, out string) {
 		_ = os.WriteFile(out+".tmp", b, 0o644)
 		_ = os.Rename(out+".tmp", out)
 	}
-	for i := 0; i < maxRuns; i++ {
+	for i := envInt("DSIM_START", 0); i < maxRuns; i++ {
 		if time.Since(start) > budget {
 			break
 		}
@@ -278,6 +279,7 @@ func workerMain(t *testing.T, def *PropDef, out string) {
 		}
 		res.LastSeed = seed
 		_ = p.Save(curFile)
+		_ = os.WriteFile(out+".idx", []byte(strconv.Itoa(i)), 0o644)
 		o := runPlan(t, def, p)
 		res.Runs++
 		res.Profiles[p.Profile]++
@@ -345,7 +347,8 @@ func workerMain(t *testing.T, def *PropDef, out string) {
 				}
 			}
 		}
-		if i%50 == 0 {
+		res.NextIndex = i + 1
+		if i%10 == 0 {
 			flush()
 		}
 	}
